@@ -569,7 +569,11 @@ const DURS_K4: [(u64, u32); 10] = [
     (MAX, 0),
 ];
 
-const STRS: [&str; 12] = ["foo", "foo bar", "", "é日本🎵", " lead", "trail ", "a/b c.mp3", "\t", "x  y", "say \"hi\" it's", "a:b=c", "0"];
+const STRS: [&str; 20] = [
+    "foo", "foo bar", "", "é日本🎵", " lead", "trail ", "a/b c.mp3", "\t", "x  y", "say \"hi\" it's", "a:b=c", "0",
+    // strings a helpful constructor might take for something else: path roots, "no value" spellings, numerals with signs
+    "/", "//", ".", "..", "-", "-1", "+0", "*",
+];
 const STRS_K1: [&str; 5] = ["Joe's", "a\\b", "x\"y", "'", "\\"];
 const STRS_BAD: [&str; 3] = ["a\nb", "a\0b", "\n"];
 
